@@ -66,6 +66,161 @@ class LExpr(Expr):
         return a
 
 
+# ---- alpha-normalisation: locals are recognised by ROLE (what they are assigned / where they are used), then renamed to
+#      the names the shape checks below are written with, so that renaming a local in the source is harmless ----------
+
+class _Renamer(ast.NodeTransformer):
+    def __init__(self, m):
+        self.m = m
+
+    def visit_Name(self, node):
+        node.id = self.m.get(node.id, node.id)
+        return node
+
+
+def _targets(node):
+    if isinstance(node, ast.Assign) and len(node.targets) == 1:
+        return node.targets[0], node.value
+    if isinstance(node, ast.AnnAssign) and node.value is not None:
+        return node.target, node.value
+    return None, None
+
+
+def by_value(regex, names, where=None):
+    """assignments whose value text matches `regex`: the target(s) get `names` (str, or list with None = skip)"""
+    import re
+    rx = re.compile(regex)
+
+    def rule(func):
+        m = {}
+        for node in ast.walk(where(func) if where else func):
+            tgt, val = _targets(node)
+            if tgt is None or not rx.search(ast.unparse(val)):
+                continue
+            if isinstance(names, str):
+                if isinstance(tgt, ast.Name):
+                    m[tgt.id] = names
+            elif isinstance(tgt, ast.Tuple) and len(tgt.elts) == len(names):
+                for e, nm in zip(tgt.elts, names):
+                    if nm and isinstance(e, ast.Name):
+                        m[e.id] = nm
+        return m
+    return rule
+
+
+def by_call(regex, arg_names=(), kw_names=None):
+    """calls whose function text matches `regex`: positional Name arguments / keyword Name arguments get roles"""
+    import re
+    rx = re.compile(regex)
+
+    def rule(func):
+        m = {}
+        for node in ast.walk(func):
+            if isinstance(node, ast.Call) and rx.search(ast.unparse(node.func)):
+                for a, nm in zip(node.args, arg_names):
+                    if nm and isinstance(a, ast.Name):
+                        m[a.id] = nm
+                for k in node.keywords:
+                    if kw_names and k.arg in kw_names and isinstance(k.value, ast.Name):
+                        m[k.value.id] = kw_names[k.arg]
+        return m
+    return rule
+
+
+def canonicalise(func, rules):
+    for _ in range(8):
+        m = {}
+        for r in rules:
+            for k, v in r(func).items():
+                if k != v:
+                    m[k] = v
+        if not m:
+            return
+        if len(set(m.values())) != len(m):
+            raise U(f"ambiguous roles for local names: {m}")
+        _Renamer(m).visit(func)
+    raise U("local-name normalisation does not converge")
+
+
+def _pre_loop(func):
+    body = []
+    for n in func.body:
+        if isinstance(n, ast.For):
+            break
+        body.append(n)
+    return ast.Module(body=body, type_ignores=[])
+
+
+def _loop_target(func):
+    for n in func.body:
+        if isinstance(n, ast.For) and isinstance(n.target, ast.Name) and ast.unparse(n.iter).startswith("range(0, self.max_iter"):
+            return {n.target.id: "t"}
+    return {}
+
+
+def _choice_lists(func):
+    m = {}
+    for node in ast.walk(func):
+        if isinstance(node, ast.If) and ast.unparse(node.test).startswith("gap_EG"):
+            for st in node.body:
+                if isinstance(st, ast.Expr) and isinstance(st.value, ast.Call) and isinstance(st.value.func, ast.Attribute) \
+                        and st.value.func.attr == "append" and isinstance(st.value.func.value, ast.Name) and len(st.value.args) == 1:
+                    a = ast.unparse(st.value.args[0])
+                    if a == "Q_EG":
+                        m[st.value.func.value.id] = "Qs"
+                    elif a == "gap_EG":
+                        m[st.value.func.value.id] = "gaps"
+    return m
+
+
+FIT_RULES = [
+    _loop_target,
+    by_value(r"^1 / self\.eps$", "B"),
+    by_value(r"^_Lagrangian\(", "lagrangian"),
+    by_value(r"^pd\.Series\(0, lagrangian\.constraints\.index\)$", "theta"),
+    by_value(r"^pd\.Series\(dtype='float64'\)$", "Qsum", _pre_loop),
+    by_value(r"^_REGRET_CHECK_START_T$", "last_regret_checked", _pre_loop),
+    by_value(r"^np\.inf$", "last_gap", _pre_loop),
+    by_value(r"np\.exp\(theta\)", "lambda_vec"),
+    by_value(r"^lagrangian\.best_h\(lambda_vec\)$", ["h", "h_idx"]),
+    by_value(r"^lagrangian\.gammas\[h_idx\]$", "gamma"),
+    by_value(r"^lagrangian\.eval_gap\(", "result_EG"),
+    by_call(r"^lagrangian\.eval_gap$", ("Q_EG", "lambda_EG")),
+    by_value(r"^result_EG\.gap\(\)$", "gap_EG"),
+    by_value(r"^lagrangian\.solve_linprog\(self\.nu\)$", ["Q_LP", None, "result_LP"]),
+    by_value(r"^result_LP\.gap\(\)$", "gap_LP"),
+    by_value(r"^self\.eta0 / B$", "eta"),
+    by_value(r"^min\(\w+\)$", "best_gap"),
+    by_call(r"^min$", ("gaps_EG",)),
+    _choice_lists,
+]
+
+LP_RULES = [
+    by_value(r"^len\(self\.hs\)$", "n_hs"),
+    by_value(r"^len\(self\.constraints\.index\)$", "n_constraints"),
+    by_value(r"^opt\.linprog\(\w+, A_ub=\w+, b_ub=\w+, A_eq=", "result"),
+    by_value(r"^opt\.linprog\(\w+, A_ub=\w+, b_ub=\w+, bounds=", "result_dual"),
+]
+
+
+def _lp_call_roles(func):
+    m = {}
+    for node in ast.walk(func):
+        if isinstance(node, ast.Call) and ast.unparse(node.func) == "opt.linprog" and node.args and isinstance(node.args[0], ast.Name):
+            kws = {k.arg: k.value for k in node.keywords}
+            dual = "bounds" in kws
+            roles = {"A_ub": "dual_A_ub", "b_ub": "dual_b_ub", "bounds": "dual_bounds"} if dual else \
+                {"A_ub": "A_ub", "b_ub": "b_ub", "A_eq": "A_eq", "b_eq": "b_eq"}
+            m[node.args[0].id] = "dual_c" if dual else "c"
+            for k, nm in roles.items():
+                if isinstance(kws.get(k), ast.Name):
+                    m[kws[k].id] = nm
+    return m
+
+
+LP_RULES.append(_lp_call_roles)
+
+
 def assigns(body, name):
     """top-level statements of `body` (not descending into nested blocks) that assign / aug-assign `name`"""
     out = []
@@ -110,6 +265,7 @@ def lift_egloop(repo):
     src = open(os.path.join(repo, EG_FILE)).read()
     tree = ast.parse(src)
     fit = find_func(tree, "ExponentiatedGradient", "fit")
+    canonicalise(fit, FIT_RULES)
     fbody = strip_logging(fit.body)
     loop = one([n for n in fbody if isinstance(n, ast.For) and ast.unparse(n.target) == "t"], "`for t in ...` loop in fit")
     if ast.unparse(loop.iter) != "range(0, self.max_iter)" or loop.orelse:
@@ -457,6 +613,7 @@ def lift_linprog(repo):
     src = open(os.path.join(repo, LAG_FILE)).read()
     tree = ast.parse(src)
     fn = find_func(tree, "_Lagrangian", "solve_linprog")
+    canonicalise(fn, LP_RULES)
     body = strip_logging(fn.body)
     out = ["/-", "GENERATED by harness/lifters/egloop.py (lift_linprog) from", f"  {LAG_FILE} (solve_linprog)",
            "Do not edit: regenerated (and the theorems of C08 re-checked against it) on every run.", "-/",
